@@ -195,6 +195,10 @@ func uniq(s []string) []string {
 
 func main() {
 	r := ev.New("C13", "model_checking")
+	if _, _, isShard := ev.ShardInfo(); isShard {
+		concurrentPart(r) // worker process of the E3 part
+	}
+	concurrentPart(r) // the cheap E3 part first
 	depth := ev.Pick(r, 10, 12)
 	scenarios := map[string][]def{}
 	var names []string
